@@ -291,9 +291,91 @@ def gen_rel(r, sub, depth=0):
     return ["q", "$", segs]
 
 
+def run_stack_depth(ctx):
+    """Projections asked for by callers whose stack is nearly used up (every remaining depth from 150 frames down to 3),
+    and of matches located almost as deep as the interpreter recurses: the call may be refused (RecursionError is the
+    interpreter's) but a projection that IS returned must be the one returned with plenty of stack."""
+    import sys
+    import threading
+
+    import jsonpath
+
+    lim = sys.getrecursionlimit()
+    doc = {"shelves": [{"skip": 0}, {"x": {"y": {"tags": ["p", "q", "r"], "n": [[0, 1], [2, 3]]}}, "z": [5, 6, 7]}], "t": [1, 2, 3]}
+    cases = [("$.shelves[1]", ["x.y.tags[1]", "x.y.tags[2]"]), ("$", ["$.shelves[1].z[2]", "$.t[1:]"]), ("$.shelves[1].x", ["y.n[1][1]", "y.n[0][1]", "y.tags[2]"]), ("$.shelves", ["$[1].z[1]", "$[1].x.y.tags[0,2]"])]
+    for mq, rels in cases:
+        for style in ("RELATIVE", "ROOT", "FLAT"):
+            proj = getattr(jsonpath.Projection, style)
+
+            def run_():
+                return [canon(x) for x in jsonpath.query(mq, doc).select(*rels, projection=proj)]
+            box = {}
+            t = threading.Thread(target=lambda: box.setdefault("ref", impl.call(run_)))
+            t.start()
+            t.join()
+            ref_ = box["ref"]
+            if not ref_.ok:
+                continue
+
+            def at_depth(n):
+                if n <= 0:
+                    return impl.call(run_)
+                return at_depth(n - 1)
+            base = len(__import__("inspect").stack(0))
+            for left in list(range(150, 2, -1)):
+                try:
+                    o = at_depth(max(0, lim - base - left))
+                except RecursionError:
+                    ctx.count("deep_caller_refusals")
+                    continue
+                ctx.evaluation()
+                ctx.count("projections_from_callers_with_little_stack_left")
+                if not o.ok:
+                    if isinstance(o.exc, RecursionError):
+                        ctx.count("deep_caller_refusals")
+                        continue
+                    ctx.violation("projection-raised-from-a-deep-caller:%s" % type(o.exc).__name__, {"stack_depth": True}, {"match_query": mq, "relative_queries": rels, "style": style, "frames_left": left, "error": o.desc()})
+                    return
+                if o.value != ref_.value:
+                    ctx.violation("projection-depends-on-how-much-stack-the-caller-has-left", {"stack_depth": True}, {"match_query": mq, "relative_queries": rels, "style": style, "frames_left_about": left, "with_plenty_of_stack": ref_.value, "from_the_deep_caller": o.value})
+                    return
+    # matches located almost as deep as the interpreter recurses
+    for depth in range(lim - 40, lim + 3, 1):
+        inner = {"x": {"y": {"tags": ["p", "q", "r"]}}}
+        v = inner
+        for _ in range(depth):
+            v = [v]
+        mq = "$" + "[0]" * depth
+        want_rel = [canon({"x": {"y": {"tags": ["q", "r"]}}})]
+        for style in ("RELATIVE", "ROOT", "FLAT"):
+            o = impl.call(lambda: list(jsonpath.query(mq, v).select("x.y.tags[1]", "x.y.tags[2]", projection=getattr(jsonpath.Projection, style))))
+            ctx.evaluation()
+            ctx.count("projections_of_matches_nested_near_the_recursion_limit")
+            if not o.ok:
+                if isinstance(o.exc, RecursionError):
+                    ctx.count("deep_match_refusals")
+                    continue
+                ctx.violation("projection-raised-on-a-deep-match:%s" % type(o.exc).__name__, {"stack_depth": True}, {"depth": depth, "style": style, "error": o.desc()})
+                return
+            if style == "FLAT":
+                ok = o.value == [["q", "r"]]
+            else:
+                cur = o.value[0] if len(o.value) == 1 else None
+                hops = 0
+                while style == "ROOT" and isinstance(cur, list) and len(cur) == 1 and hops < depth:
+                    cur = cur[0]
+                    hops += 1
+                ok = cur is not None and (style != "ROOT" or hops == depth) and type(cur) is dict and canon(cur) == want_rel[0] and type(cur["x"]["y"]["tags"]) is list
+            if not ok:
+                ctx.violation("projection-of-a-match-nested-near-the-recursion-limit-is-wrong", {"stack_depth": True}, {"match_depth": depth, "recursion_limit": lim, "style": style, "got": repr(o.value)[-200:]})
+                return
+
+
 def run(spec, ctx):
     r = ctx.rng
     rr = Renderer(r, blanks=0.05)
+    if spec["shard"] == 2:
+        run_stack_depth(ctx)
     if spec["shard"] == 1:
         multi_env_history(ctx)
     if spec["shard"] == 0:
@@ -353,5 +435,8 @@ def replay(case, ctx):
         return
     if case.get("multi_env"):
         multi_env_history(ctx)
+        return
+    if case.get("stack_depth"):
+        run_stack_depth(ctx)
         return
     check_case(ctx, case["doc"], case["mq_ast"], case["mq_text"], case["rel_asts"], case["rel_texts"], case["style"], case.get("class", "replay"))
